@@ -260,3 +260,35 @@ def check_sweep(ctx, cases, ops):
 def collections_counter():
     import collections
     return collections.Counter()
+
+
+def check_e2e_sweep(ctx, cases, ops):
+    """Statements over graphs of up to 16385 triples through the planner, against the spec in Python (not evaluated in Coq)."""
+    done = collections_counter()
+    for c in cases:
+        if c["op"] not in ops:
+            continue
+        done["%s:%d" % (c["op"], c["n"])] += 1
+        base, out, bad = [tuple(x) for x in c["base"] or []], [tuple(x) for x in c["out"] or []], None
+        if c["outcome"] != "ok" or len(base) != c["n"]:
+            bad = "outcome %s, %d base rows for %d triples" % (c["outcome"], len(base), c["n"])
+        elif c["op"] == "having":
+            want = [(s, o, 0) for s, o in base if o > c["k"]]
+            if out != want:
+                bad = "HAVING kept %d rows, the filter of the base rows has %d (or other rows / order)" % (len(out), len(want))
+        elif c["op"] == "orderlimit":
+            want = sorted(base, key=lambda r: (-r[1], "%03d" % r[0]))[:7]
+            if [(s, o) for s, o, _ in out] != want:
+                bad = "ORDER BY ?o DESC, ?s LIMIT 7 over %d rows returned other rows" % len(base)
+        elif c["op"] == "groupby":
+            g = {}
+            for s, o in base:
+                e = g.setdefault(s, [0, 0])
+                e[0] += 1
+                e[1] = wrap64(e[1] + o)
+            want = sorted((s, v[0], v[1]) for s, v in g.items())
+            if sorted(out) != want or len(out) != len(want):
+                bad = "GROUP BY over %d rows: %d result rows for %d groups or wrong count / sum" % (len(base), len(out), len(want))
+        if bad:
+            ctx.violation({"kind": "statement size sweep: " + bad, "q": c["q"], "n": c["n"], "out_head": out[:10]})
+    return dict(done)
